@@ -28,3 +28,23 @@ func cmdProbe(path string) {
 	}
 	fmt.Println("no diff in common prefix; lens", len(t1), len(t2))
 }
+
+// cmdProbeShort: debugging aid: documents of n distinct words, alone and with unrelated text around.
+func cmdProbeShort() {
+	words := []string{"alpha", "beta", "gamma", "delta", "epsilon", "zeta", "eta", "theta", "iota", "kappa", "lambda", "mu", "nu", "xi"}
+	for _, thr := range []float64{0.75, 0.8, 0.9} {
+		for n := 1; n <= 12; n++ {
+			c := classifier.NewClassifier(thr)
+			doc := ""
+			for i := 0; i < n; i++ {
+				doc += words[i] + " "
+			}
+			c.AddContent("License", "D", "d.txt", []byte(doc))
+			a := len(c.Match([]byte(doc)).Matches)
+			b := len(c.Match([]byte("zzqx wobble\n" + doc)).Matches)
+			d := len(c.Match([]byte(doc + "\nzzqx wobble")).Matches)
+			e := len(c.Match([]byte("zzqx wobble\n" + doc + "\nzzqx wobble quux")).Matches)
+			fmt.Printf("thr=%v n=%d alone=%d prefixed=%d suffixed=%d both=%d\n", thr, n, a, b, d, e)
+		}
+	}
+}
